@@ -160,7 +160,7 @@ MASS_MOLS = {"MA": [("A", ["a1", "a2"])], "MB": [("B", ["b1"])]}
 
 @condition("C03.density_box",
            anchors=["polyply.src.build_system:_compute_box_size", "polyply.src.build_system:BuildSystem.__init__"],
-           replay=False, must_cover=["atom masses", "type masses", "massless site"],
+           replay=False, must_cover=["atom masses", "type masses", "massless site", "mass column on some atoms only"],
            stubs=["grid argument given (no np.mgrid over symbolic box)"],
            outside=["IEEE rounding beyond round(., 5)"],
            bounds={"quick": dict(layouts=[[("MA", 1)], [("MA", 2), ("MB", 1)]]), "thorough": dict(layouts=[[("MA", 1)], [("MA", 2), ("MB", 1)], [("MB", 3), ("MA", 1)]])})
@@ -169,7 +169,7 @@ def density_box(sx, B):
     the atom types) and a symbolic density: the box is cubic and its edge, rounded to 5 decimals, satisfies
     |edge - (1.660541 * total mass / density)^(1/3)| <= 0.5e-5; the topology carries the same box."""
     layout = sx.sel("layout", B["layouts"])
-    where = sx.sel("masses_from", ["atoms", "atom types"])
+    where = sx.sel("masses_from", ["atoms", "atom types", "mass column on the first atom of each molecule only"])
     top = topology_from_text(top_text(MASS_MOLS, layout, atomtypes=("A", "B")))
     mA, mB = sx.real("mass_A", 0, 1000, lo_strict=True), sx.real("mass_B", 0, 1000, lo_strict=True)
     total = 0
@@ -178,11 +178,16 @@ def density_box(sx, B):
             nd = meta.molecule.nodes[a]
             m = mA if nd["atype"] == "TA" else mB
             total = total + m
-            if where == "atoms":
+            if where == "atoms" or (where.startswith("mass column") and a == min(meta.molecule.nodes)):
                 nd["mass"] = m
             else:
                 nd.pop("mass", None)
-    if where == "atom types":
+    if where.startswith("mass column"):
+        # the optional mass column is given for some atoms only: every atom without one takes the mass of its type
+        top.atom_types["TA"]["mass"] = mA
+        top.atom_types["TB"]["mass"] = mB
+        sx.cover("mass column on some atoms only")
+    elif where == "atom types":
         top.atom_types["TA"]["mass"] = mA
         top.atom_types["TB"]["mass"] = mB
         sx.cover("type masses")
@@ -440,7 +445,7 @@ import harness.C10 as _c10      # noqa: E402
 
 @condition("C03.accepted_is_built",
            anchors=["polyply.src.gen_coords:gen_coords", "polyply.src.gen_coords:_check_molecules", "polyply.src.build_system:BuildSystem.run_system"],
-           rejects=(), selector_only=True, must_cover=["refused", "built", "ring plus detached residue"],
+           rejects=(), selector_only=True, must_cover=["refused", "built", "ring plus detached residue", "two residues joined by two bonds"],
            stubs=["none: the real gen_coords runs end to end with real files (random seed fixed from VERIF_SEED)"],
            outside=["molecule types other than the chain, the dimer and the ring with a pendant residue"],
            cfg={"path_timeout_s": 300},
@@ -451,7 +456,9 @@ def accepted_is_built(sx, B):
     dimer, ring with a pendant residue) misses a solver-chosen bond. Either the topology is refused (IOError), or the structure
     that is written lists every atom of the expanded [ molecules ] section with finite coordinates - in particular a molecule
     that is not connected is never built into a structure with non-finite coordinates."""
-    layout = sx.sel("layout", [[("SOL", 1), ("RNG", 1)], [("POL", 1), ("DIM", 1), ("SOL", 1)], [("RNG", 1), ("POL", 1)]])
+    layout = sx.sel("layout", [[("SOL", 1), ("RNG", 1)], [("POL", 1), ("DIM", 1), ("SOL", 1)], [("RNG", 1), ("POL", 1)], [("LAD", 2), ("SOL", 1)]])
+    if layout[0][0] == "LAD":
+        sx.cover("two residues joined by two bonds")
     mt, bad = _c10.broken_moltypes(sx)
     d = tempfile.mkdtemp(prefix="pverif_", dir=os.environ.get("TMPDIR"))
     DeferredFileWriter().open_files.clear()
